@@ -211,8 +211,11 @@ def backends():
     return out
 
 
-def make_pp(backend, root, retain, depfile=None):
-    kw = dict(include_paths=[root], retain_all_content=retain)
+SPELLINGS = ("abs", "rel-dot", "rel-absinc", "rel-parent")
+
+
+def make_pp(backend, root, retain, depfile=None, inc=None):
+    kw = dict(include_paths=[root] if inc is None else inc, retain_all_content=retain)
     if depfile:
         kw["depfile"] = depfile
         kw["deptarget"] = ["tgt.o"]
@@ -230,13 +233,30 @@ class LocVisitor(impl.SimpleCxxVisitor):
         super().on_variable(state, v)
 
 
-def check_graph(g, backend, retain, use_dep, as_string=False):
+def check_graph(g, backend, retain, use_dep, as_string=False, spelling="abs"):
+    """spelling: how the main file and the include path are named -- absolute (abs), relative to the graph's root as the
+    current directory with include path '.' (rel-dot) or the absolute root (rel-absinc), or relative to the root's parent
+    directory (rel-parent).  The property holds whatever the files and directories are called."""
+    if spelling == "abs":
+        return _check_graph(g, backend, retain, use_dep, as_string, os.path.join(g.root, g.main), None)
+    old = os.getcwd()
+    try:
+        if spelling == "rel-parent":
+            os.chdir(os.path.dirname(g.root))
+            b = os.path.basename(g.root)
+            return _check_graph(g, backend, retain, use_dep, as_string, os.path.join(b, g.main), [b])
+        os.chdir(g.root)
+        return _check_graph(g, backend, retain, use_dep, as_string, g.main, ["."] if spelling == "rel-dot" else [g.root])
+    finally:
+        os.chdir(old)
+
+
+def _check_graph(g, backend, retain, use_dep, as_string, path, inc):
     root = g.root
     dep = os.path.join(root, "out.d") if use_dep else None
     if backend == "pcpp" and retain and use_dep:
         dep = None
-    pp = make_pp(backend, root, retain, dep)
-    path = os.path.join(root, g.main)
+    pp = make_pp(backend, root, retain, dep, inc)
     v = LocVisitor()
     try:
         if as_string:
@@ -315,7 +335,8 @@ def search(ctx, boost=False):
     s = Search()
     bk = backends()
     s.rule = ("generated include graphs on disk (file names that are suffixes/prefixes of one another, sub-directories, blanks, depth <= 4, "
-              "macro-only includes, #pragma once) x available backends %s x retain_all_content x depfile x (file | string input): declarations "
+              "macro-only includes, #pragma once) x available backends %s x retain_all_content x depfile x (file | string input) x path spelling "
+              "(absolute | relative to the root with include path '.' or the absolute root | relative to the parent directory): declarations "
               "must be exactly the main file's (macro-expanded, in order, main-file line numbers) / include the included ones; depfile names "
               "target and every file read; non-trivial = graph with >=1 include; distinct = distinct (graph, configuration)" % bk)
     rng = ctx.rng
@@ -331,15 +352,18 @@ def search(ctx, boost=False):
                 for retain in (False, True):
                     for use_dep in (False, True):
                         as_string = (backend == "gcc" and not use_dep and rng.random() < 0.3)
+                        spelling = "abs" if (as_string or rng.random() < 0.4) else rng.choice(SPELLINGS[1:])
                         s.evaluations += 1
                         if len(g.files) > 1:
                             s.nontrivial.add((i, backend, retain, use_dep))
                         s.count("%s/retain=%s/dep=%s" % (backend, retain, use_dep))
-                        msg = check_graph(g, backend, retain, use_dep, as_string)
+                        s.count("spelling=" + spelling)
+                        msg = check_graph(g, backend, retain, use_dep, as_string, spelling)
                         if msg:
-                            s.violations.append(dict(what=msg, case=dict(kind="graph", files=g.files, main=g.main, backend=backend,
-                                                                         retain=retain, dep=use_dep, main_vars=g.main_vars,
-                                                                         inc_vars=g.inc_vars, read=g.read, as_string=as_string)))
+                            s.violations.append(dict(what=msg + " [paths: %s]" % spelling,
+                                                     case=dict(kind="graph", files=g.files, main=g.main, backend=backend,
+                                                               retain=retain, dep=use_dep, main_vars=g.main_vars,
+                                                               inc_vars=g.inc_vars, read=g.read, as_string=as_string, spelling=spelling)))
             if len(s.samples) < 2 and len(g.files) > 2:
                 s.samples.append(dict(main=g.main, files=g.files))
         finally:
@@ -363,7 +387,7 @@ def replay(ctx, case):
             os.makedirs(os.path.dirname(p), exist_ok=True)
             with open(p, "w") as fp:
                 fp.write(text)
-        m = check_graph(g, case["backend"], case["retain"], case["dep"], case.get("as_string", False))
+        m = check_graph(g, case["backend"], case["retain"], case["dep"], case.get("as_string", False), case.get("spelling", "abs"))
         return [m] if m else []
     finally:
         shutil.rmtree(root, ignore_errors=True)
